@@ -35,6 +35,8 @@ def classes():
 
 
 map_size = z3.Function("map_size", z3.IntSort(), z3.IntSort())
+# the set of elements of a sequence (spec function; uninterpreted: only "the same sequence has the same members" is used)
+seq_members = z3.Function("seq_members", V.ValSeq, z3.ArraySort(V.Val, z3.BoolSort()))
 
 
 def key_norm(k):
@@ -849,9 +851,69 @@ def install(eng):
                     content = z3.Store(content, knorm(eng, st, x), True)
             elif isinstance(src, SV) and src.hint is set:
                 content = z3.Select(st.sets, V.Val.a(src.t))
+            elif isinstance(src, SV) and src.hint is list:
+                content = seq_members(z3.Select(st.lists, V.Val.a(src.t)))
+            elif isinstance(src, SV) and src.hint is None:
+                # a value read from a container: its class is decided by the path condition
+                for st1, pycls in eng.class_of(src, st):
+                    if pycls not in (set, list):
+                        raise Unsupported(f"set(iterable) of a symbolic {pycls.__name__}")
+                    yield from m_set(eng, st1, [SV(src.t, hint=pycls)], kw)
+                return
             else:
                 raise Unsupported("set(iterable) of a symbolic iterable")
         st.sets = z3.Store(st.sets, V.Val.a(sv.t), content)
+        yield st, sv
+
+    def set_content_of(eng, st, v, what):
+        """content of a value that is a Python set: by hint, or (for values read from containers) by its class fact,
+        which is then an obligation"""
+        if isinstance(v, SV) and v.hint is set:
+            return z3.Select(st.sets, V.Val.a(v.t))
+        t = eng.lift(v, st)
+        eng.oblige(st, f"{what}: the operand is a set", z3.And(V.is_ref(t), V.cls_of(V.Val.a(t)) == eng.class_id(set)), "type")
+        return z3.Select(st.sets, V.Val.a(t))
+
+    @mm(set, "__sub__")
+    def set_sub(eng, st, args, kw):
+        self, other = args
+        a, b = z3.Select(st.sets, V.Val.a(self.t)), set_content_of(eng, st, other, "set difference")
+        kk = z3.Const(V.fresh_name("k"), V.Val)
+        sv = eng.alloc(st, set)
+        st.sets = z3.Store(st.sets, V.Val.a(sv.t), z3.SetDifference(a, b))
+        yield st, sv
+
+    @mm(set, "update")
+    def set_update(eng, st, args, kw):
+        self, other = args
+        a, b = z3.Select(st.sets, V.Val.a(self.t)), set_content_of(eng, st, other, "set.update")
+        kk = z3.Const(V.fresh_name("k"), V.Val)
+        st.sets = z3.Store(st.sets, V.Val.a(self.t), z3.SetUnion(a, b))
+        yield st, None
+
+    @reg(builtins.list, "list")
+    def m_list(eng, st, args, kw):
+        if eng.all_concrete(args, kw):
+            yield st, list(*args)
+            return
+        if args and not (isinstance(args[0], SV) and args[0].hint is set):
+            try:
+                for st1, items in eng.iter_concrete(args[0], st):
+                    yield st1, (items if isinstance(items, Raise) else list(items))
+                return
+            except Unsupported:
+                pass
+        sv = eng.alloc(st, list)
+        if not args:
+            sq = z3.Empty(V.ValSeq)
+        elif isinstance(args[0], SV) and args[0].hint is set:
+            # list(<set>): some duplicate-free listing of exactly the members (order unspecified)
+            sq = z3.Const(V.fresh_name("listing"), V.ValSeq)
+            content = z3.Select(st.sets, V.Val.a(args[0].t))
+            st.assume(seq_members(sq) == content, z3.Length(sq) == set_card(content), (z3.Length(sq) == 0) == (content == EMPTY_SET))
+        else:
+            sq = seq_content(eng, args[0], st)
+        st.lists = z3.Store(st.lists, V.Val.a(sv.t), sq)
         yield st, sv
 
     @mm(set, "add")
